@@ -63,16 +63,30 @@ class Tr:
                 v = self.tofp((t, v))
                 r = f'(fp.roundToIntegral RTP {v})'
                 return ('fp', r) if fn != 'math.ceil' else ('bv', f'((_ fp.to_sbv 64) RTZ {r})')
-            if fn in ('np.floor', 'numpy.floor') and len(e.args) == 1:
+            if fn in ('np.floor', 'numpy.floor', 'math.floor') and len(e.args) == 1:
                 v = self.tofp(self.expr(e.args[0]))
-                return ('fp', f'(fp.roundToIntegral RTN {v})')
+                r = f'(fp.roundToIntegral RTN {v})'
+                return ('fp', r) if fn != 'math.floor' else ('bv', f'((_ fp.to_sbv 64) RTZ {r})')
+            if fn == 'float' and len(e.args) == 1:
+                return ('fp', self.tofp(self.expr(e.args[0])))
+            if fn == 'bool' and len(e.args) == 1 and self.expr(e.args[0])[0] == 'bool':
+                return self.expr(e.args[0])
             raise Unsupported('call ' + fn)
         if isinstance(e, ast.BinOp):
             a, b = self.expr(e.left), self.expr(e.right)
             if isinstance(e.op, ast.Div):
                 return ('fp', f'(fp.div RNE {self.tofp(a)} {self.tofp(b)})')
             if isinstance(e.op, ast.FloorDiv) and a[0] == 'bv' and b[0] == 'bv':
-                return ('bv', f'(bvsdiv {a[1]} {b[1]})')       # operands are non-negative here
+                # Python floor division on signed operands: truncating quotient, minus one if the signs differ and there is a remainder
+                q, r = f'(bvsdiv {a[1]} {b[1]})', f'(bvsrem {a[1]} {b[1]})'
+                z = '(_ bv0 64)'
+                adj = f'(and (not (= {r} {z})) (xor (bvslt {a[1]} {z}) (bvslt {b[1]} {z})))'
+                return ('bv', f'(ite {adj} (bvsub {q} (_ bv1 64)) {q})')
+            if isinstance(e.op, ast.Mod) and a[0] == 'bv' and b[0] == 'bv':
+                r = f'(bvsrem {a[1]} {b[1]})'
+                z = '(_ bv0 64)'
+                adj = f'(and (not (= {r} {z})) (xor (bvslt {a[1]} {z}) (bvslt {b[1]} {z})))'
+                return ('bv', f'(ite {adj} (bvadd {r} {b[1]}) {r})')
             if isinstance(e.op, (ast.Add, ast.Sub, ast.Mult)) and a[0] == 'bv' and b[0] == 'bv':
                 op = {ast.Add: 'bvadd', ast.Sub: 'bvsub', ast.Mult: 'bvmul'}[type(e.op)]
                 return ('bv', f'({op} {a[1]} {b[1]})')
@@ -84,6 +98,25 @@ class Tr:
             t, v = self.expr(e.operand)
             if t == 'bool':
                 return ('bool', f'(not {v})')
+        if isinstance(e, ast.UnaryOp) and isinstance(e.op, ast.USub):
+            t, v = self.expr(e.operand)
+            if t == 'bv':
+                return ('bv', f'(bvneg {v})')
+            if t == 'fp':
+                return ('fp', f'(fp.neg {v})')
+        if isinstance(e, ast.Compare) and len(e.ops) == 1:
+            a, b = self.expr(e.left), self.expr(e.comparators[0])
+            if a[0] == 'bv' and b[0] == 'bv':
+                op = {ast.Eq: '=', ast.Lt: 'bvslt', ast.LtE: 'bvsle', ast.Gt: 'bvsgt', ast.GtE: 'bvsge'}.get(type(e.ops[0]))
+                if op:
+                    return ('bool', f'({op} {a[1]} {b[1]})')
+                if isinstance(e.ops[0], ast.NotEq):
+                    return ('bool', f'(not (= {a[1]} {b[1]}))')
+        if isinstance(e, ast.IfExp):
+            t, c = self.expr(e.test)
+            a, b = self.expr(e.body), self.expr(e.orelse)
+            if t == 'bool' and a[0] == b[0]:
+                return (a[0], f'(ite {c} {a[1]} {b[1]})')
         if isinstance(e, ast.Constant) and isinstance(e.value, int) and not isinstance(e.value, bool):
             return ('bv', f'(_ bv{e.value} 64)') if e.value >= 0 else ('bv', f'(bvneg (_ bv{-e.value} 64))')
         raise Unsupported('expression ' + ast.unparse(e))
@@ -190,7 +223,9 @@ def run(tier, nproc=16, log=None):
         out['states'] += 1
         out['transitions'] += 1
         if r['validation'] == 'unsupported':
-            out['harness_errors'].append(f'TRANSLATION-UNSUPPORTED {name}: {r["out"]}')
+            # the kernel is written in a form outside the translator's subset: the lemma is not applicable to this tree (the bounded
+            # E1 families of C02 still decide the property up to their length bound); reported, never counted as discharged
+            out['inconclusive'].append(f'{name}: not applicable, the function is outside the translated subset ({r["out"]})')
             continue
         if r['validation'] != 'unsat':
             out['harness_errors'].append(f'{name}: the SMT term disagrees with the real function on L in 0..40 ({r["validation"]})')
